@@ -149,7 +149,12 @@ def rule_put(ck: Check, repo: Repo, rid: str = "R1") -> None:
         if d.get("ok200") is False and leaf.outcome[:2] != ("raise", "URLError"):
             r.violation(f"{DL}.download_license", "non-200 status must raise URLError", f"{leaf.outcome}", repo.loc(dl))
     src = ast.unparse(dl)
-    if "urljoin(_SPDX_REPOSITORY_BASE_URL, ''.join((spdx_identifier, '.txt')))" not in src:
+    # the file part may be spelled ''.join((id, '.txt')), f'{id}.txt' or id + '.txt' - also through a local
+    from ..rules import deep_text as _dt19
+    _uj = [c for c in ast.walk(dl) if isinstance(c, ast.Call) and ast.unparse(c.func) == "urljoin" and len(c.args) == 2]
+    _url_ok = any(ast.unparse(c.args[0]) == "_SPDX_REPOSITORY_BASE_URL" and _dt19(dl, c.args[1]) in (
+        "''.join((spdx_identifier, '.txt'))", "f'{spdx_identifier}.txt'", "spdx_identifier + '.txt'") for c in _uj)
+    if not _url_ok:
         r.violation(f"{DL}.download_license", "URL construction", "base URL + <identifier>.txt", repo.loc(dl))
 
 
